@@ -1,0 +1,35 @@
+//go:build verif
+
+// Package quic (verif build): a link-time stub of the identifiers the root
+// package uses. The real implementation imports quic-go, whose qtls
+// dependency panics in init on current Go toolchains, so nothing that
+// imports the root package could be linked for verification.
+package quic
+
+import (
+	"context"
+	"crypto/tls"
+	"errors"
+	"net"
+)
+
+var errNoQUIC = errors.New("quic: not available in verif build")
+
+// Conn is never instantiated in a verif build.
+type Conn struct{ net.Conn }
+
+// Listener is never instantiated in a verif build.
+type Listener struct{ net.Listener }
+
+// DialAddrContext always fails in a verif build.
+func DialAddrContext(ctx context.Context, network string, laddr *net.UDPAddr, raddr string, tlsConf *tls.Config, config interface{}) (net.Conn, error) {
+	return nil, errNoQUIC
+}
+
+// InheritedListen always fails in a verif build.
+func InheritedListen(network, laddr string, tlsConf *tls.Config, config interface{}) (net.Listener, error) {
+	return nil, errNoQUIC
+}
+
+// SetInherited is a no-op in a verif build.
+func SetInherited() error { return nil }
